@@ -42,6 +42,16 @@ partial def modelLoop (h : IO.FS.Stream) (out : IO.FS.Stream) (st : Option State
       | _, _ => do
         IO.eprintln "genesis op before genesis"
         IO.Process.exit 2
+    else if l.startsWith "modcall " || l.startsWith "modbind " then
+      match st, parseModOp l with
+      | some s, some m => do
+        let (s', r, effs) := runModOp s m
+        let s' := match r with | .ok => s' | _ => s
+        for ln in blockLines l r (match r with | .ok => effs | _ => []) s' do out.putStrLn ln
+        modelLoop h out (some s')
+      | _, _ => do
+        IO.eprintln s!"cannot parse module-service op line: {l}"
+        IO.Process.exit 2
     else
     match parseOpLine l, st with
     | .bad msg, _ => do
@@ -155,6 +165,32 @@ partial def monitorLoop (h : IO.FS.Stream) (out : IO.FS.Stream) : IO Unit := do
           if g = .restart && r = "R ok" then
             ghost := ghost.map (fun e => (e.1, { e.2 with lastStart := none, lastExpiry := none, clean := false, restarted := true }))
         | _, _, _ => out.putStrLn s!"P {n} genesis op before genesis"; viol := viol + 1
+      else if opl.startsWith "modcall " || opl.startsWith "modbind " then
+        -- the module-service branch is outside `Op`: the state invariants are evaluated on the implementation's state,
+        -- and one step of `Model/ModSvc.lean` from the implementation's previous state must give its block
+        match cfgp, pre, parseModOp opl with
+        | some (cfg, params), some s0, some m =>
+          let (s1, bad) := parseState cfg params ss
+          for b in bad do out.putStrLn s!"P {n} unparsable state line: {b}"; viol := viol + 1
+          for (name, vs) in [("escrowBacked", Mon.escrowBacked s1), ("depositBacked", Mon.depositBacked s1),
+                             ("ownerEarnings", Mon.ownerEarnings s1), ("minDep", Mon.minDep s1), ("indexes", Mon.indexes s1)] do
+            for v in vs do
+              out.putStrLn s!"V {n} {name} {v}"
+              viol := viol + 1
+          let (sm, rm, em) := runModOp s0 m
+          let sm := match rm with | .ok => sm | _ => s0
+          let em := match rm with | .ok => em | _ => []
+          let want := [resStr rm] ++ em.map effStr ++ sortLines (stateLines sm)
+          let got := [r] ++ es ++ sortLines (stateLines s1)
+          let norm (l : List String) : List String := l.map (fun x =>
+            if x.startsWith "R panic" then "R panic" else if x.startsWith "R err" then "R err" else x)
+          if norm got ≠ norm want then
+            let miss := want.filter (fun x => !got.contains x)
+            let extra := got.filter (fun x => !want.contains x)
+            out.putStrLn s!"V {n} modsvcLaw code `{r}` model `{resStr rm}`; only model {miss.take 3} only code {extra.take 3}"
+            viol := viol + 1
+          pre := some s1
+        | _, _, _ => out.putStrLn s!"P {n} cannot parse module-service op"; viol := viol + 1
       else
       match parseOpLine opl with
       | .genesis cfg params _ _ =>
